@@ -233,7 +233,7 @@ pub fn run(ctx: &mut Ctx) -> (&'static str, String, bool) {
         ctx.merge(p);
     }
 
-    // ---- (b,c) valid frames of every kind: every byte position x every value, truncations, extensions, bit flips
+    // ---- (b,c) valid frames of every kind: every byte position x every value, truncations, extensions, bit flips, multi-byte text snippets at every offset
     let frames_per_kind = ctx.tier.pick(2usize, 6usize);
     let parts: Vec<Part> = c
         .kinds()
@@ -285,6 +285,33 @@ pub fn run(ctx: &mut Ctx) -> (&'static str, String, bool) {
                         }
                         check_buffer(&m, compressed, &format!("bitflip-{}", lay.name), &mut p, &mut r);
                     }
+                    // well-formed multi-byte text where the peer may put text: UTF-8 / double-byte snippets (digits followed
+                    // by a multi-byte character, marker + lead byte, ...) written over every offset after the header
+                    const SNIPPETS: [&[u8]; 10] = [
+                        "0.7é".as_bytes(),
+                        "1日".as_bytes(),
+                        "0.6В9".as_bytes(),
+                        "²".as_bytes(),
+                        "９".as_bytes(),
+                        b"^J\x93\xfa",
+                        b"^J\x81",
+                        b"^^\x5e",
+                        b"\xef\xbb\xbf",
+                        "😀".as_bytes(),
+                    ];
+                    let cap2 = if thorough { frame.len() } else { frame.len().min(64) };
+                    for pos in 3..cap2 {
+                        for sn in SNIPPETS {
+                            let mut m = frame.clone();
+                            for (k, b) in sn.iter().enumerate() {
+                                if pos + k < m.len() {
+                                    m[pos + k] = *b;
+                                }
+                            }
+                            check_buffer(&m, compressed, &format!("text-snippet-{}", lay.name), &mut p, &mut r);
+                            p.distinct_extra += 1;
+                        }
+                    }
                 }
             }
             p
@@ -330,7 +357,7 @@ pub fn run(ctx: &mut Ctx) -> (&'static str, String, bool) {
     ctx.assume("uncompressed announced lengths >= 4 that are not a multiple of 4 may be treated as a frame of that length or refused as a framing error: the statement does not choose");
     (
         "exploration",
-        "every (size,type) header pair x buffer lengths around the announced length x both modes; valid frames of every kind (reference-built and encoder-built) with every byte position set to every value, every truncation, extensions and bit flips; random and plausible-header random buffers; each decoded twice with different trailing bytes; distinct = distinct (mode, buffer)".into(),
+        "every (size,type) header pair x buffer lengths around the announced length x both modes; valid frames of every kind (reference-built and encoder-built) with every byte position set to every value, every truncation, extensions, bit flips and multi-byte text snippets (UTF-8, double-byte, markers) written over every offset; random and plausible-header random buffers; each decoded twice with different trailing bytes; distinct = distinct (mode, buffer)".into(),
         false,
     )
 }
